@@ -273,7 +273,7 @@ func ExecOp(op *core.Op) *core.Obs {
 	}
 	setLevel(op.Level)
 	if op.Trace {
-		startTrace()
+		startTrace(op.Count)
 	}
 	s0 := stdSize()
 	var m0, m1 runtime.MemStats
@@ -296,6 +296,9 @@ func ExecOp(op *core.Op) *core.Obs {
 			obs.Events = nil
 			stalled = ""
 		}
+	}
+	if op.NoRes {
+		obs.R = nil
 	}
 	obs.Std = int(stdSize() - s0)
 	if op.Level != "" {
